@@ -667,6 +667,71 @@ def extract_member(name):
     return {"lock": len(locks) == 1, "labels": labels, "argfirst": argfirst}
 
 
+# ------------------------------------------------------------------------------------------------ d'. member methods: the value argument, level-0 receivers
+
+ARG_MEMBERS = ["put", "insert", "concat"]
+
+
+def extract_member_arg0(name):
+    """the SECOND `if (exp_type.level() == 0) { switch (exp_type.major()) {…} }` of put / insert / concat: per receiver major the test
+    on the value argument (the last argument parsed): `break` alone = anything; otherwise
+    `if ([args.back()->type(ctx) != Type::M && …] !typeChecking(args.back(), Type::INTEGER)) throw MEMB_ARG_TYPE_S; break;`
+    = accepted iff the argument's major is one of the M or it type-checks as INTEGER. (The collection branch — the `else` — is not
+    extracted.)"""
+    src = Src("blocc/member/member_%s.cpp" % name)
+    t = src.text
+    a = t.index("Member%sExpression::parse" % name.upper())
+    sw = list(re.finditer(r"if\s*\(\s*exp_type\.level\(\)\s*==\s*0\s*\)\s*\{\s*switch\s*\(\s*exp_type\.major\(\)\s*\)\s*\{", t[a:]))
+    if len(sw) != 2:
+        src.fail(a, "parse(): expected exactly two `if (exp_type.level() == 0) { switch (exp_type.major()) {` tests, found %d" % len(sw))
+    o = a + sw[1].end() - 1
+    pre = t[a + sw[0].end():a + sw[1].start()]
+    if len(re.findall(r"args\.push_back\(", pre)) != (1 if name == "concat" else 2):
+        src.fail(o, "parse(): the second receiver switch does not follow the value argument")
+    end = match_brace(src, o)
+    if not re.match(r"\s*\}\s*else\b", t[end:]):
+        src.fail(end, "parse(): the second receiver switch is not followed by the collection branch (`else`)")
+    body = t[o + 1:end - 1]
+    # split at the labels
+    labs = list(re.finditer(r"(case\s+Type::(\w+)\s*:|default\s*:)", body))
+    rules, cur = [], []
+    for i, mlab in enumerate(labs):
+        seg = body[mlab.end():labs[i + 1].start() if i + 1 < len(labs) else len(body)]
+        cur.append(mlab.group(2) or "default")
+        if not seg.strip():
+            continue
+        seg = seg.strip()
+        if cur == ["default"]:
+            if not re.fullmatch(r"throw\s+ParseError\(\s*EXC_PARSE_MEMB_NOT_IMPL_S\b[^;]*;", seg):
+                src.fail(o, "parse(): default of the second receiver switch is not `throw ParseError(EXC_PARSE_MEMB_NOT_IMPL_S…`")
+        elif re.fullmatch(r"break\s*;", seg):
+            rules += [(l, None) for l in cur]
+        else:
+            mm = re.fullmatch(r"if\s*\((.*?)\)\s*throw\s+ParseError\(\s*EXC_PARSE_MEMB_ARG_TYPE_S\b[^;]*;\s*break\s*;", seg, flags=re.S)
+            if not mm:
+                src.fail(o, "parse(): unrecognised case body in the second receiver switch: %r" % seg[:80])
+            conj = [x.strip() for x in mm.group(1).split("&&")]
+            ms, tc = [], False
+            for x in conj:
+                m1 = re.fullmatch(r"args\.back\(\)->type\(ctx\)\s*!=\s*Type::(\w+)", x)
+                if m1 and m1.group(1) in MAJ:
+                    ms.append(m1.group(1))
+                elif re.fullmatch(r"!ParseExpression::typeChecking\(args\.back\(\),\s*Type::INTEGER,\s*p,\s*ctx\)", x):
+                    tc = True
+                else:
+                    src.fail(o, "parse(): unrecognised conjunct %r in the argument test" % x)
+            rules += [(l, (ms, tc)) for l in cur]
+        cur = []
+    return rules
+
+
+def lean_member_arg0(name):
+    rows = []
+    for l, r in extract_member_arg0(name):
+        rows.append("(%s, %s)" % (MAJ[l], ".any" if r is None else "(.oneOf %s %s)" % (lean_majors(r[0]), "true" if r[1] else "false")))
+    return "def %s_arg0 : List (Major × ArgRule) := [%s]" % (name, ", ".join(rows))
+
+
 def gen_membersigs():
     mfiles = sorted(f[7:-4] for f in os.listdir(os.path.join(REPO, "blocc", "member")) if re.fullmatch(r"member_\w+\.cpp", f))
     if sorted(MEMBERS + ["set", "complex"]) != mfiles:
@@ -678,6 +743,9 @@ def gen_membersigs():
          "EXC_PARSE_MEMB_NOT_IMPL_S; every receiver of level ≥ 1 passes); `argFirst` = the first argument is parsed and checked",
          "against INTEGER before the receiver is looked at. -/",
          "structure MemberRecv where", "  lockChecked : Bool", "  receivers : List Major", "  argFirst : Bool", "  deriving Repr", "",
+         "/-- Test on the value argument of put / insert / concat for a level-0 receiver of a given major: anything, or: the argument's",
+         "major is one of `ms`, or (`orInt`) it type-checks as INTEGER; otherwise EXC_PARSE_MEMB_ARG_TYPE_S. -/",
+         "inductive ArgRule", "  | any", "  | oneOf (ms : List Major) (orInt : Bool)", "  deriving Repr", "",
          "namespace Memb", ""]
     rows = []
     for name in MEMBERS:
@@ -686,6 +754,10 @@ def gen_membersigs():
         o.append("def %s_recv : MemberRecv := { lockChecked := %s, receivers := %s, argFirst := %s }" % (
             name, "true" if r["lock"] else "false", lean_majors(r["labels"]), "true" if r["argfirst"] else "false"))
         rows.append('  ("%s", Memb.%s_recv)' % (name, name))
+    o.append("")
+    for name in ARG_MEMBERS:
+        o.append("/-- `Member%sExpression::parse`, second receiver switch (level-0 receivers): the value argument -/" % name.upper())
+        o.append(lean_member_arg0(name))
     o += ["", "end Memb", "", "def memberRecvs : List (String × MemberRecv) := [", ",\n".join(rows), "]", "", "end BlocV.Gen"]
     return "\n".join(o) + "\n"
 
